@@ -279,14 +279,22 @@ def simplifyEach (n invzprod : Int) : List Point → List Int → List Int → L
   | _, _, _ => []
 
 /-- `Point::many_simplify`: Montgomery's trick, one inversion of the (un-reduced) product of all
-non-zero z; `Err(gcd(∏z, n))` when that is not invertible -/
+non-zero z; when that is not invertible `Err(gcd(∏z, n))`, or — if that gcd is n itself — the gcd of
+n with the first non-zero coordinate that shares a proper divisor with it -/
 def manySimplify (pts : List Point) (n : Int) : Except Int (List Point) :=
   let zarr := pts.map (·.z)
   let zprod := zarr.foldl (fun acc z => if z != 0 then acc * z else acc) 1
   let accL := prefixAcc n 1 zarr
   let accR := suffixAcc n zarr
   match NTV.inv zprod n with
-  | .error g => .error g
+  | .error g =>
+    -- the gcd of the whole product may be n although no coordinate is a multiple of n: the first
+    -- non-zero coordinate sharing a proper divisor with n is reported instead
+    if g == n then
+      match zarr.find? (fun z => z != 0 && (Int.gcd z n : Int) != 1 && (Int.gcd z n : Int) != n) with
+      | some z => .error (Int.gcd z n : Int)
+      | none => .error g
+    else .error g
   | .ok invzprod => .ok (simplifyEach n invzprod pts accL (accR.drop 1))
 
 /-- loop body of `many_adds` for one triple -/
